@@ -201,7 +201,40 @@ Next ==
 Spec == Init /\ [][Next]_vars
 
 -----------------------------------------------------------------------------
-MonitorsQuiet == \A p \in MonSet : mon[p].v = {}
+MonitorsQuiet == \A p \in (MonSet \cap DOMAIN mon) : mon[p].v = {}
+
+(***************************************************************************)
+(* C17 on the specification: in every reachable state, every input of the  *)
+(* rejected classes is a stuttering step - same state, no effect, the      *)
+(* class's result.  (Determinism is structural: Step is a function of      *)
+(* state, input and tape.)                                                 *)
+(***************************************************************************)
+RejectedInputs ==
+    LET base == Parsed(Hdr(<<2, 0>>, 0, st.id, Msg("Gossip", 0, NoId)), <<Mem(<<3, 0>>, 1, "S")>>, <<>>)
+        own1 == Parsed(Hdr(st.id, 0, st.id, Msg("Gossip", 0, NoId)), <<Mem(<<3, 0>>, 1, "S")>>, <<>>)
+        own2 == Parsed(Hdr(<<OwnAddr, (Gen(st.id) + 1) % 3>>, 0, st.id, Msg("Ping", 1, NoId)), <<>>, <<>>)
+        wrong == Parsed(Hdr(<<2, 0>>, 0, <<OwnAddr, (Gen(st.id) + 1) % 3>>, Msg("Gossip", 0, NoId)), <<Mem(<<3, 0>>, 1, "S")>>, <<>>)
+        wrong2 == Parsed(Hdr(<<2, 1>>, 1, <<3, 0>>, Msg("Ping", 1, NoId)), <<>>, <<>>)
+        ann == [Parsed(Hdr(<<2, 0>>, 0, st.id, Msg("Announce", 0, NoId)), <<>>, <<>>) EXCEPT !.rem = 2, !.len = @ + 2, !.tally = 0]
+        stale == (st.tok + TokenMod - 1) % TokenMod
+    IN {<<"data", d, "Err">> : d \in {[base EXCEPT !.hok = FALSE], [base EXCEPT !.len = st.cfg.maxpkt + 1],
+                                        [base EXCEPT !.rem = 1, !.len = base.hs + 1],
+                                        [base EXCEPT !.memfail = TRUE], own1, own2, ann}}
+       \cup {<<"data", wrong, "Ok">>, <<"data", wrong2, "Ok">>}
+       \cup {<<"timer", t, "Ok">> : t \in {TmProbe(stale), TmIndirect(<<2, 0>>, stale), TmSuspect(<<2, 0>>, 0, stale),
+                                            TmAnnounce(stale), TmGossip(stale), TmAnnounceDown(stale)}}
+       \cup {<<"change_identity", [id |-> st.id], "Err">>}
+       \cup (IF st.conn # "U" THEN {<<"reuse", <<>>, "Err">>} ELSE {})
+       \cup {<<"set_config", [cfg |-> [st.cfg EXCEPT !.period = @ + 1, !.maxtx = 7]], "Err">>}
+       \cup {<<"add_broadcast", [len |-> 0, item |-> [key |-> 0, ver |-> 0, sz |-> 0, intact |-> FALSE]], "Err">>,
+             <<"add_broadcast", [len |-> st.cfg.maxpkt + 1, item |-> [key |-> 1, ver |-> 0, sz |-> st.cfg.maxpkt + 1, intact |-> TRUE]], "Err">>}
+
+RejectedLeavesNoTrace ==
+    \A inp \in RejectedInputs :
+        LET r == Step(st, inp[1], inp[2], [EmptyTape EXCEPT !.auto = TRUE, !.pref = Ranked(AllIds, <<>>)], <<>>, TRUE) IN
+        /\ r.st = st /\ r.out = <<>> /\ r.hcalls = <<>>
+        /\ (inp[3] = "Ok" => r.res = "Ok")
+        /\ (inp[3] = "Err" => r.res # "Ok" /\ r.res # "Panic")
 
 \* hide history that does not influence behaviour
 View == <<st, pend, mon, epochs>>
